@@ -313,6 +313,60 @@ func translateTarget(repo string, t target, funcs map[string]*fnSig, consts map[
 		fmt.Fprintf(&b, "def %s_ok %s : Bool :=\n  %s\n\n", t.lean, ps, conj(v.panics, "true"))
 		fmt.Fprintf(&b, "def %s_rng %s : Bool :=\n  %s\n\n", t.lean, ps, conj(v.rngs, "true"))
 		return emitted{text: b.String()}
+	case "kv", "arg":
+		// additive (ties).  kv: the value written for key `lhs` in the nth composite literal of the function that has such a
+		// key (`EndBlock: ctx.BlockHeight() + params.EpochBlocks`).  arg: the nth argument of the first call of `lhs`
+		// (a selector path such as `k.GetSpecificStatusDataBeforeTime`) in the function.
+		var fn *ast.FuncDecl
+		for _, d := range f.Decls {
+			if fd, ok := d.(*ast.FuncDecl); ok && fd.Name.Name == t.name {
+				rt, _ := recvTypeName(fd)
+				if t.recv == "" || rt == t.recv {
+					fn = fd
+				}
+			}
+		}
+		if fn == nil {
+			bad("function %s not found", t.name)
+		}
+		var val ast.Expr
+		count := 0
+		ast.Inspect(fn, func(n ast.Node) bool {
+			if val != nil {
+				return false
+			}
+			switch x := n.(type) {
+			case *ast.KeyValueExpr:
+				if id, ok := x.Key.(*ast.Ident); ok && t.kind == "kv" && id.Name == t.lhs {
+					if count == t.nth {
+						val = x.Value
+					}
+					count++
+				}
+			case *ast.CallExpr:
+				if p, ok := selPath(x.Fun); ok && t.kind == "arg" && p == t.lhs && len(x.Args) > t.nth {
+					val = x.Args[t.nth]
+				}
+			}
+			return true
+		})
+		if val == nil {
+			bad("%s %s in %s not found", t.kind, t.lhs, t.name)
+		}
+		params := []string{}
+		for _, fl := range t.fields {
+			ev.vars[fl.path] = fl.t
+			params = append(params, fmt.Sprintf("(%s : %s)", leanIdent(fl.path), leanType(fl.t)))
+		}
+		v := ev.expr(val)
+		if v.t == "tuple" {
+			bad("tuple expr")
+		}
+		ps := strings.Join(params, " ")
+		var b strings.Builder
+		fmt.Fprintf(&b, "def %s %s : %s :=\n  %s\n\n", t.lean, ps, leanType(v.t), v.lean)
+		fmt.Fprintf(&b, "def %s_ok %s : Bool :=\n  %s\n\n", t.lean, ps, conj(v.panics, "true"))
+		return emitted{text: b.String()}
 	case "rejects":
 		// the disjunction of every `if` condition of the function (source order, without the `err != nil` ones) that mentions
 		// the ONE field of the target.  A Dec field `p.X` stands for the local variable parsed from it
@@ -418,7 +472,25 @@ func writeIfChanged(path, content string) {
 func main() {
 	repo := flag.String("repo", "/repo", "repository root")
 	outDir := flag.String("out", "/verif/lean/SunriseVerif/Gen", "output directory")
+	listConds := flag.String("listconds", "", "development aid: FILE:FUNC — print the numbered `if` conditions of FUNC as `cond` targets count them")
 	flag.Parse()
+	if *listConds != "" {
+		parts := strings.SplitN(*listConds, ":", 2)
+		f := parse(*repo, parts[0])
+		for _, d := range f.Decls {
+			if fd, ok := d.(*ast.FuncDecl); ok && fd.Name.Name == parts[1] {
+				i := 0
+				ast.Inspect(fd, func(n ast.Node) bool {
+					if is, ok := n.(*ast.IfStmt); ok && !isErrNotNil(is.Cond) {
+						fmt.Printf("%d\t%s\t%s\n", i, fset.Position(is.Pos()), exprStr(is.Cond))
+						i++
+					}
+					return true
+				})
+			}
+		}
+		return
+	}
 	_ = os.MkdirAll(*outDir, 0o755)
 	failed := 0
 	for _, g := range genFiles() {
